@@ -21,6 +21,7 @@ import (
 	"verif/engine/runner"
 	"verif/engine/simnet"
 	"verif/engine/vsched"
+	"verif/harness/c06"
 	"verif/harness/reg"
 	"verif/harness/world"
 	"verif/harness/xfer"
@@ -32,7 +33,7 @@ func init() {
 		ID:    "C05",
 		Level: "fault_enumeration",
 		Rule: "enumeration of hostile inputs against the real server (3 registered users, TCP and UDP), each from its own source address, concurrently with a genuine client: (a) filler strings of every length 0..200 x {00, ff, printable, counter} then {stall, close}; (b) genuine first segments built by the independent encoder with a registered credential (never delivered to the server) and recorded from the genuine client (already seen): every prefix, every single-bit flip of the authenticated region (all bits when the original was already seen); " +
-			"(c) well-formed open requests under an unregistered user, a registered name with a wrong password and a hint naming a real user, a right credential for a key slot >=4 min away, a minute stamp >=2 min away; also repeated 3 times per source. Oracle: zero bytes / datagrams toward any probing address over a 130 s virtual horizon, no Accept beyond the genuine sessions, the genuine transfers intact. distinct = distinct probes",
+			"(c) well-formed open requests under an unregistered user, a registered name with a wrong password and a hint naming a real user, a right credential for a key slot >=4 min away, a minute stamp >=2 min away; also repeated 3 times per source; (d) copies of genuine traffic: the first segment while the original is still being delivered (tail held 2 s, copy after 1 s), the first segment of one transport presented on the other (server listening on both), datagrams of a session the server has forgotten. Oracle: zero bytes / datagrams toward any probing address over a 130 s virtual horizon, no Accept beyond the genuine sessions, the genuine transfers intact. distinct = distinct probes",
 		Assumptions: []string{
 			"a bit flip confined to the unauthenticated padding of a segment the server never saw is the genuine handshake itself and is excluded",
 			"half-close is not modelled by the in-memory stream; probes either stall or close",
@@ -529,5 +530,6 @@ func units(tier string) []runner.Unit {
 		})
 	}
 	us = append(us, retiredUnits(tier)...)
+	us = append(us, c06.PartyWithoutCredentialUnits("C05")...)
 	return us
 }
